@@ -1,10 +1,28 @@
 #!/bin/bash
 # Builds the harness binaries once (warms the Go build cache). Offline.
 set -e
-cd "$(dirname "$0")/harness"
+cd "$(dirname "$0")"
 export GOFLAGS=-mod=mod GOPROXY=off GOTOOLCHAIN=local CGO_ENABLED=1
 unset GOSUMDB
-mkdir -p ../.bin
+mkdir -p .bin evidence replays
 go1.26.8 version
-go1.26.8 test -c -tags verif -o ../.bin/rigv.test ./rigv
+python3 - <<'PY' > .bin/builds.txt
+import sys
+sys.path.insert(0, ".")
+from checks_spec import SPECS
+seen = set()
+for pid, spec in sorted(SPECS.items()):
+    parts = spec.get("parts") or [dict(binary=spec["binary"], pkg=spec["pkg"], race=spec.get("race", False))]
+    for p in parts:
+        key = (p["binary"], p["pkg"], bool(p.get("race")))
+        if key not in seen:
+            seen.add(key)
+            print(p["binary"], p["pkg"], "race" if p.get("race") else "norace")
+PY
+while read bin pkg race; do
+  flags=""
+  [ "$race" = race ] && flags="-race"
+  echo "building $bin ($pkg, $race)"
+  ( cd harness && go1.26.8 test -c $flags -tags verif -o ../.bin/$bin.test ./$pkg )
+done < .bin/builds.txt
 echo "setup ok"
